@@ -122,7 +122,7 @@ func (i *interpreter) newPath(w WorkItem) *pathState {
 		ps.model = Model{}
 		ps.needModel = len(w.Prefix) > 0
 	}
-	ps.clock = int64(1_700_000_000_000_000_000)
+	ps.clock = int64(1_700_000_000) // seconds since the Unix epoch
 	return ps
 }
 
